@@ -9,25 +9,27 @@ CORR_MODULES = ["Entity.C35Corr"]
 PREFIX = "C35"
 CASE_TYPE = "ent_case"
 HARNESS = "entity"
-KNOWN = {1: "C35-counter-overflow"}
+KNOWN = {}
 RULE = ("one case = one scenario on the simulated stack: create/delete histories of participants, topics, content "
         "filtered topics, publishers, subscribers, writers and readers (10-300 calls, several participants, deletes "
-        "in between, get_instance_handle probes), plus long ones that drive one counter to its maximum (256 "
-        "publishers / subscribers created one by one or by the burn op; 65 536 topics / writers / readers by the burn "
-        "op, which creates and deletes in a loop inside the harness); every creation prints the new instance handle; "
+        "in between, get_instance_handle probes), plus long ones that exhaust one id counter (256 and more "
+        "publishers / subscribers created one by one or by the burn op; 65 536 and more topics / writers / readers by "
+        "the burn op, which creates and deletes in a loop inside the harness) and go on using the participant "
+        "afterwards; every creation prints the new instance handle; "
         "distinct = distinct scenario line; non-trivial = at least 8 successful creations and one successful delete")
 TRUSTED = ["theories/Entity/EntityModel.v is a hand transcription of the entity-id construction in "
            "participant_methods.rs:40-96/131-185/222-300/355-405, publisher_methods.rs:29-125, "
            "subscriber_methods.rs:34-150 and of the counters in participant_entity.rs:57-62,231",
-           "the quick tier runs the harness of the dev profile (overflow checks on: panic); the thorough tier "
-           "additionally builds it with --release (overflow-checks = false) and compares it with the model in the "
-           "Release profile (wrap-around, duplicate handle of a live entity)",
+           "the quick tier runs the harness of the dev profile (overflow checks on); the thorough tier additionally "
+           "builds it with --release (overflow-checks = false) and compares it with the model in the Release profile "
+           "(since b2cf990 both behave alike: OutOfResources)",
            "RTPS GUIDs are not observable through the public API: the model builds them as the code does "
            "(Guid::new(prefix of the participant handle, entity_id), the same 16 bytes as the instance handle)"]
-ASSUMPTIONS = ["theorem and oracle hold outside the class 'a counter is incremented at the maximum of its type' "
-               "(known finding C35-counter-overflow)",
-               "hangs: after the panic the worker task is gone, so every later call of a real application waits "
-               "forever; the single-threaded simulator reports the panic itself"]
+ASSUMPTIONS = ["fewer than 2^32 create_participant calls in a history: the participant instance number of the factory is an "
+               "AtomicU32 incremented with fetch_add, which wraps",
+               "hangs: a panic of the worker task would leave every later call of a real application waiting forever; "
+               "the single-threaded simulator reports the panic itself (none occurs any more), STUCK results are "
+               "violations"]
 
 
 def random_history(r, big=False):
@@ -107,15 +109,13 @@ def u8_cases(r):
 
 
 def u16_cases(tier):
-    out = [
-        # topics: the 65 536th creation
-        ["FQ 0", "P 0", "burnT 0 65535", "T 0 1", "T 0 2"],
-        ["P 0", "burnT 0 65534", "T 0 1", "h T 0", "T 0 2", "T 0 3"],
-    ]
+    # (corpus() already exhausts the topic, writer and reader counters once in every tier)
+    out = [["FQ 0", "P 0", "burnT 0 65535", "T 0 1", "T 0 2", "gq P 0"]]
     if tier != "quick":
         out += [
+            ["P 0", "burnT 0 65534", "T 0 1", "h T 0", "T 0 2", "T 0 3"],
             # content filtered topics share the topic counter
-            ["FQ 0", "P 0", "T 0 1", "burnT 0 65533", "CFT 0 1 0", "T 0 2", "T 0 3"],
+            ["FQ 0", "P 0", "T 0 1", "burnT 0 65533", "CFT 0 1 0", "T 0 2", "T 0 3", "CFT 0 2 0"],
             ["P 0", "T 0 1", "PUB 0", "burnW 0 0 65535", "W 0 0", "W 0 0"],
             # a refused writer consumes a counter value, a refused reader does not
             ["P 0", "T 0 1", "PUB 0", "burnW 0 0 65534", "W 0 0 hist=5 mspi=2", "W 0 0", "W 0 0"],
@@ -124,9 +124,6 @@ def u16_cases(tier):
             # writers of two publishers share the participant's writer counter
             ["P 0", "T 0 1", "PUB 0", "PUB 0", "burnW 0 0 40000", "burnW 1 0 25535", "W 0 0", "W 1 0"],
         ]
-    else:
-        out += [["P 0", "T 0 1", "PUB 0", "burnW 0 0 65535", "W 0 0", "W 0 0"],
-                ["P 0", "T 0 1", "SUB 0", "burnR 0 0 65535", "R 0 0", "R 0 0"]]
     return out
 
 
@@ -142,7 +139,7 @@ def gen(r, tier):
 
 def release_cases():
     return [
-        # the 257th publisher of a participant gets the handle of the first one, which is alive
+        # before b2cf990 the 257th publisher got the handle of the first one, which is alive; now E5
         ["P 0"] + ["PUB 0"] * 257 + ["h PUB 0", "h PUB 256", "gq PUB 0", "gq PUB 256"],
         ["P 0"] + ["SUB 0"] * 257 + ["h SUB 0", "h SUB 256"],
         # with deletions in between nothing is alive twice: no duplicate, no panic
@@ -201,15 +198,19 @@ def extra(ctx, binary):
             ctx.violations.append(("oracle", "release profile: oracle rejects " + case_line(keep[i]),
                                    {"case": case_line(keep[i]), "harness": HARNESS + " (release)"}))
     ctx.cov["release_profile_evaluations"] = len(cases)
-    ctx.cov["release_profile_duplicate_handles_seen"] = sum(1 for _, cls in ob if cls == 1)
 
 
 def corpus():
     return [
         parse_line("P 0 ; T 0 1 ; PUB 0 ; SUB 0 ; W 0 0 ; R 0 0 ; W 0 0 ; R 0 0 ; h W 1 ; h R 1 ; h PUB 0 ; h T 0 ; h P 0 ; "
                    "delW 0 ; W 0 0 ; delPUB 0 ; PUB 0 ; W 1 0 ; h W 3"),
-        ["P 0", "burnPUB 0 254", "PUB 0", "PUB 0"],
-        ["P 0", "burnSUB 0 255", "SUB 0"],
+        # regression of the former finding C35-counter-overflow (fixed by b2cf990): the creation that exhausts a
+        # counter returns OutOfResources (E5), nothing panics, and the participant still answers
+        ["P 0", "burnPUB 0 254", "PUB 0", "PUB 0", "PUB 0", "gq P 0", "SUB 0", "h PUB 0", "gq PUB 0", "delPUB 0", "PUB 0"],
+        ["P 0", "burnSUB 0 255", "SUB 0", "gq P 0", "PUB 0", "T 0 1", "W 0 0"],
+        ["P 0", "burnT 0 65534", "T 0 1", "T 0 2", "T 0 3", "gq P 0", "gq T 0", "PUB 0", "W 0 0"],
+        ["P 0", "T 0 1", "PUB 0", "burnW 0 0 65535", "W 0 0", "W 0 0", "gq PUB 0", "SUB 0", "R 0 0"],
+        ["P 0", "T 0 1", "SUB 0", "burnR 0 0 65535", "R 0 0", "R 0 0", "gq SUB 0"],
     ]
 
 
@@ -241,20 +242,20 @@ def distribution(cases, outs):
 
 MANIFEST = {
     "text": ("Machine-checked proof (Coq) over a model of the entity-id construction (u8 publisher/subscriber counters, "
-             "u16 writer/reader/topic counters, handle = participant prefix + counter bytes + kind) for ALL histories of "
-             "mails and ALL application-level scenarios, with the build profile as a parameter: as long as no counter is "
-             "incremented at the maximum of its type, no creation panics and all live entities have pairwise distinct "
-             "instance handles and RTPS GUIDs (invariant by induction). Inside that class the property is FALSE and "
-             "this is a recorded finding: with overflow checks the 256th publisher/subscriber (65 536th writer/reader/"
-             "topic) of one participant panics the worker, without them the counter wraps and a live handle is reused "
-             "(both proved as witnesses on the model; the panic is reproduced on the real stack for all five counters). "
-             "The model is tied to the code by running create/delete scenarios (up to 65 536 creations in one scenario) "
-             "through the real stack in the simulator and comparing every returned handle / error / panic with the "
-             "model inside Coq; the uniqueness oracle is applied to the implementation's own handles."),
+             "u16 writer/reader/topic counters incremented with checked_add, handle = participant prefix + counter bytes "
+             "+ kind) for ALL histories of mails and ALL application-level scenarios, in both build profiles: no "
+             "creation panics - it returns a handle or an error, OutOfResources once the id counter of its kind is "
+             "exhausted, and then changes nothing - and all live entities have pairwise distinct instance handles "
+             "and RTPS GUIDs (invariant by induction; the only premise is fewer than 2^32 create_participant calls, "
+             "whose AtomicU32 instance number wraps). The model is tied to the code by running create/delete "
+             "scenarios (up to 65 536 creations in one scenario, going on after the counter is exhausted) through "
+             "the real stack in the simulator and comparing every returned handle / error with the model inside "
+             "Coq; the uniqueness oracle is applied to the implementation's own handles."),
     "note": ("Trusted: Coq kernel + vm_compute; hand model EntityModel.v (checked against the code by the correspondence "
-             "run on every check); simulator harness; the Release-profile behaviour (handle of a live entity reused) is executed on the real "
-             "stack in the thorough tier only. Axioms: none. Known finding C35-counter-overflow (proposed_fixes/"
-             "C35-counter-overflow.diff)."),
+             "run on every check); simulator harness; the build without overflow checks is executed in the thorough "
+             "tier only. Axioms: none. The former finding C35-counter-overflow (panic at the 256th publisher / "
+             "65 536th topic, handle reuse in release builds) was repaired by b2cf990 and is kept as regression "
+             "scenarios."),
     "technique": "Coq proof (handle invariant by induction over all mail histories, Debug/Release profile parameter) "
                  "+ differential correspondence on the simulated stack with the uniqueness oracle evaluated in Coq",
 }
